@@ -23,8 +23,10 @@ package transport
 //@   ensures imp(p.Compress == "", p.CompressLevel == old(p.CompressLevel))
 //@   ensures imp(result == nil, validLevel(p) && validWindow(p))
 
+// (C13 shares the clauses that fix level, window and takeover mode from the negotiated values: two
+//  peers that derive different dictionaries from the same parameters corrupt the second message)
 //@ func (*NegotiationParams).CompressConfig
-//@   props C17
+//@   props C17 C13
 //@   nopanic
 //@   modifies nothing
 //@   ensures result.Enable == (p.CompressLevel != nil && *p.CompressLevel != 0)
